@@ -93,6 +93,9 @@ struct Env {
   int ctx = 0; int items = 0;
   // hand-written consumer
   int hc_last_chan = -1; long hc_err = 0; bool hc_next_active = false; bool hc_done_in_stop = false; bool hc_next_active_at_stop = false;
+  // stop requested from inside the k-th call of next(source) (the window between an adaptor's "already stopped?" check and its stop-callback registration)
+  int hook_src = -1, hook_call = -1; int next_calls[3] = {0, 0, 0}; std::function<void()> on_hook; bool hook_fired = false, in_hook = false; long hc_starts = 0, hook_in_hc_start = -1;
+  bool si_top = false;
   long tick() { return ++seq; }
   void remove_pending(void* op) { for (size_t i = 0; i < pending.size();) if (pending[i].op == op) pending.erase(pending.begin() + (long)i); else ++i; }
   void call_point(const char* who) {
@@ -239,7 +242,11 @@ struct HStream {
     };
     template <class R> friend Op<unifex::remove_cvref_t<R>> tag_invoke(unifex::tag_t<unifex::connect>, CleanupSender s, R&& r) { return Op<unifex::remove_cvref_t<R>>{s.id, (R &&) r}; }
   };
-  friend NextSender tag_invoke(unifex::tag_t<unifex::next>, HStream& s) noexcept { return NextSender{s.id}; }
+  friend NextSender tag_invoke(unifex::tag_t<unifex::next>, HStream& s) noexcept {
+    Env& e = E(); int k = e.next_calls[s.id]++;
+    if (e.hook_src == s.id && e.hook_call == k && e.on_hook && !e.hook_fired) { e.hook_fired = true; e.in_hook = true; SR_TR("src%d: next() call #%d requests stop on the consumer's stop source", s.id, k); e.on_hook(); e.in_hook = false; }
+    return NextSender{s.id};
+  }
   friend CleanupSender tag_invoke(unifex::tag_t<unifex::cleanup>, HStream& s) noexcept { return CleanupSender{s.id}; }
 };
 
@@ -386,8 +393,13 @@ template <class Stream> struct HandConsumer final : RunnerBase {
   void start() override { start_next(); }
   void start_next() {
     nop.construct_with([&] { return unifex::connect(unifex::next(s), NextR{this}); });
-    E().hc_next_active = true;
+    Env& e = E();
+    e.hc_next_active = true;
+    long my = ++e.hc_starts; bool stopped_before = e.stop_requested;
     unifex::start(nop.get());
+    // a stop request issued while this next() was being started (from inside the source's next() call): stop_immediately completes it at once
+    if (e.si_top && !stopped_before && e.stop_requested && e.hook_fired && e.hc_starts == my && e.hc_next_active)
+      SR_FAIL(P, "stop_immediately_not_immediate", "stop_immediately: a stop request arrived while next() was being started (after the adaptor had looked at its stop token) and the next() operation is still outstanding when start() returns");
   }
   void on_next(int chan, long v, long err) noexcept {
     Env& e = E();
@@ -539,6 +551,14 @@ void vk_run_case(vk::Choice& c) {
   if (!d.stages.empty() && d.stages.back() == K_SI) has_si_top = true;
   (void)has_dl;
 
+  e.si_top = has_si_top;
+  // derived from the hash of everything decoded so far (consumes no bytes: older replays keep their event order); --legacy=1 switches it off
+  if (cx.argi("legacy", 0) == 0 && d.src >= 0 && d.src < 3) {
+    uint64_t hh = c.h;
+    if (hh % 4 == 0) { e.hook_src = d.src; e.hook_call = (int)((hh / 4) % 4); }
+    c.mix((uint64_t)(e.hook_call + 2));
+    if (e.hook_call >= 0) cx.desc += vk::sfmt(" stop-inside-next()-call#%d", e.hook_call);
+  }
   RunnerBase* runner = PIPES[pi].make(consumer, limit);
   int driver_steps = 0; bool stop_inflight = false, trigger_inflight = false, deferred_cleanup_fired = false;
   auto do_stop = [&] {
@@ -552,12 +572,13 @@ void vk_run_case(vk::Choice& c) {
     e.root_ss.request_stop();
     e.t_stop_end = e.tick();
     (void)seen_before; (void)sig_before;
-    if (consumer == 2 && has_si_top && hc_active) {
+    if (consumer == 2 && has_si_top && hc_active && !e.in_hook) {
       if (e.hc_next_active) SR_FAIL(P, "stop_immediately_not_immediate", "stop_immediately: the consumer's outstanding next() was not completed inside request_stop() [%s]", d.text.c_str());
       else e.hc_done_in_stop = true;
     }
   };
   SR_TR("case: %s", cx.desc.c_str());
+  e.on_hook = do_stop;
   runner->start();
   for (int step = 0; step < 4000; ++step) {
     if (e.root_signals > 0 && e.pending.empty()) break;
@@ -676,7 +697,8 @@ void vk_run_case(vk::Choice& c) {
   }
   delete runner;
   if (!e.live_ops.empty() && !cx.failed) SR_FAIL(P, "op_leaked", "%zu operation state(s) of the harness sources were never destroyed although the consumer and the stream have been destroyed [%s]", e.live_ops.size(), d.text.c_str());
-  cx.nontrivial = driver_steps >= 2 && (stop_inflight || trigger_inflight || fault || (limit >= 0 && early) || deferred_cleanup_fired);
+  cx.nontrivial = driver_steps >= 2 && (stop_inflight || e.hook_fired || trigger_inflight || fault || (limit >= 0 && early) || deferred_cleanup_fired);
+  if (e.hook_fired) cx.label("stop-from-inside-next()-call");
   if (stop_inflight) cx.label("stop-while-outstanding");
   if (trigger_inflight) cx.label("trigger-fires-while-next-outstanding");
   if (fault) cx.label("error-or-fault");
